@@ -70,3 +70,8 @@ CHECKS['C17'] = ('fault_enumeration',
   'Every single-token fault of six programs that together use every grammar rule (and every pair of delete/swap x delete/swap/truncate faults of the smallest, thorough tier) is classified by the repository\'s own ANTLR lexer+parser with a counting listener; every text the grammar rejects must make MalCompiler.compile and LanguageGraph.from_mal_spec raise, both as the root file and as a file included by a valid root.',
   'Trusted: the generated lexer/parser as the definition of the grammar. Texts that stay grammatical are counted and skipped.',
   'DESIGN.md 3/C17')
+CHECKS['C15'] = ('exploration',
+  'bounded-exhaustive enumeration of languages (expression chunks, inheritance shapes, class families, shipped specs), every single dangling reference, and the C01 model space for edge prediction',
+  'For every enumerated language the real language graph is compared with a reference (assets, super/sub links, subtype closure for every pair, per-asset associations, association lookup for every (field, field, type, type) quadruple in both orientations, exposed steps, step links equal to the statically typed targets, every link mirrored); every single reference replaced by an unknown name must be reported; every attack-graph edge over the C01 model space must be predicted by a language-graph link to a step owned by the target type or an ancestor.',
+  'Trusted: reference typing rules (malc\'s). Dangling names in requires clauses / unused variables are outside the statement. Content of dependency chains is not compared.',
+  'DESIGN.md 3/C15')
